@@ -138,6 +138,11 @@ func main() {
 					s = s[:*width] + "…"
 				}
 				fmt.Printf("  L%d  %s\n", p.Fset.Position(pos).Line, s)
+				if os.Getenv("XLINT_GUARD_INSTANCES") != "" {
+					for _, v := range p.FA(fn).guardInstances(g) {
+						fmt.Printf("      inst  %s\n", v.String())
+					}
+				}
 			}
 		}
 		return
